@@ -41,6 +41,10 @@ def run(ctx):
             ev[2:] += 1.0
             H = 0.02 * H + numpy.diag(ev)
             H = (H + H.T) / 2
+        # spectra far from zero (a large constant in the Hamiltonian): the threshold is an absolute accuracy
+        if case % 4 == 3:
+            H = H + rng.choice([-7500.0, 12000.0]) * numpy.eye(dim)
+            kind = kind + "+offset"
         nroots = rng.choice([1, 2, 3]) if dim >= 6 else 1
         exact = numpy.linalg.eigvalsh(H)
         desc = {"kind": kind, "dim": dim, "nroots": nroots, "case": case, "seed": ctx.seed}
@@ -174,13 +178,15 @@ def fqe_case(ctx, case, norb, na, nb, h1, h2, api, nroots, guess_data, cplx_h, c
     key = (na + nb, na - nb)
     if not (numpy.iscomplexobj(h1) and numpy.abs(numpy.imag(h1)).max() > 0) and not cplx_h:
         h1, h2 = numpy.real(h1), numpy.real(h2)
-    ham = fqe.get_restricted_hamiltonian((h1, h2))
+    # every third case carries a large scalar part (eigenvalues of order 1e4: the threshold is an absolute accuracy)
+    e0_off = [0.0, 0.0, -7500.0][case % 3]
+    ham = fqe.get_restricted_hamiltonian((h1, h2), e_0=e0_off)
     terms = U.restricted_terms([h1, h2], norb)
     w0 = fqe.Wavefunction([[na + nb, na - nb, norb]])
     dets = U.wfn_dets(w0)
     if len(dets) < 4:
         return
-    Hm = hmatrix(d, norb, dets, terms, 0.0)
+    Hm = hmatrix(d, norb, dets, terms, e0_off)
     exact = numpy.linalg.eigvalsh(Hm)
     desc = {"norb": norb, "nalpha": na, "nbeta": nb, "dim": len(dets), "case": case, "api": api, "nroots": nroots,
             "complex_hamiltonian": bool(cplx_h), "complex_guess_vectors": bool(cplx_g), "kind": "fqe",
